@@ -181,7 +181,7 @@ def build_engine(fl, rnd, d=3):
 
 def run(ctx):
     fl = import_library()
-    nant = ctx.scale(1500, 20_000)
+    nant = ctx.scale(1500, 100_000)
     max_depth = ctx.scale(4, 5)
     ctx.rule = (
         f"every Rule.activate_with and Antecedent.load call observed. Workload: {nant} antecedents printed from random expression trees (depth <= {max_depth}, "
